@@ -12,6 +12,10 @@ TEXT = {
  "C07": ("ClaimTask is checked against the statement's table for every (state, counter, request) combination under interference and faults, and the lexicographic monotonicity of (counter, state rank) (G2) plus I4 is proved for every transaction it commits; the task statements (update/heartbeat/complete-by-root) are checked as conditional writes on both backends.", "4/C07"),
  "C08": ("Routed creation (promise + invocation task in one transaction iff the router matched, with the router's receiver), create-with-task (refused without trace unless routed; otherwise promise and claimed task in one step), the completion transaction (all outstanding tasks of the root completed in the same step) and one dispatch cycle (only Init tasks with the read counter, one per root, none with an enqueued/claimed sibling; Enqueued only after a successful hand-off, failed hand-offs retried, notifications finished after the first attempt; hrefs name id and counter) are checked against the statement for arbitrary databases, router and sender outcomes.", "4/C08"),
  "C11": ("Convergence is decided as ranking lemmas (see explanation in the evidence): progress of min(batch, overdue) per fault-free instance for each of the five sweeps, termination of every path of every background coroutine under injected failures, and exactness of the sweeps' selects on both backends.", "4/C11"),
+ "C12": ("Exactly-one-response is decided for the sequential skeleton only: kernel API EnqueueSQE (refused => answered once with the right error; accepted => stored and answered once on completion), every request coroutine (response xor *t_api.Error on every path under failures, no panic), every gRPC call (one kernel request, one reply or error). The concurrent half of the statement needs goroutine interleavings and is explicitly outside.", "4/C12"),
+ "C13": ("Panic reachability: SMT decides for every path of every gRPC handler (symbolic request, real coroutine behind it), of the stored-data decoders and of every background coroutine whether a Go panic / failed assertion / nil dereference is reachable; a model is a concrete crashing request or stored value. Ten such defects were found, demonstrated natively and repaired (see known_findings.txt).", "4/C13"),
+ "C15": ("Status tables are total on every status constant declared in the current source and map to the code of their class; for each gRPC handler the reply produced from the real kernel outcome agrees with it (flags, codes, exactly one reply).", "4/C15"),
+ "C19": ("Each clause of receiver resolution is an SMT obligation over the real router and sender code for arbitrary tag values / stored receivers / plugin availability.", "4/C19"),
  "C14": ("Search statements of both backends are checked against the specification of a page for arbitrary tables, patterns, state masks, tags, limits and cursors; the coroutine's cursor logic (present iff page full, same query, SortId = last row) and the lazily timed-out rows are checked under interference; a two-page induction step shows no row is skipped or repeated when a cursor is followed while other requests interleave.", "4/C14"),
  "C09": ("The four lock coroutines run on an arbitrary lock table under interference and faults: acquire is refused iff another execution holds the resource (whatever its expiry) and otherwise sets owner/ttl/expiry = t + ttl; release removes exactly the caller's own lock; heartbeat extends exactly the rows of that process to t + ttl and never creates or transfers a lock; the sweep deletes exactly rows with expires_at <= t. Every lock row of another execution is shown unchanged by each transaction.", "4/C09"),
  "C10": ("One-step lemma of the firing sweep on an arbitrary schedule table with the cron library as an uninterpreted next(t,cron) > t: a schedule row changes only in a transaction that also contains the insert of that occurrence's promise (id = expand(template, id, occurrence), timeout = occurrence + configured timeout, configured param/tags + marker tags), only if next_run_time <= sweep time, and moves (last,next) := (next, next(next)); create computes next(created_on) and is idempotent by key; delete removes exactly the row. Iterating the lemma gives none skipped / none twice / catch-up one by one.", "4/C10"),
@@ -25,6 +29,10 @@ NOTE = {
  "C07": "Trusted as C01; only ClaimTask at coroutine level so far, the other task coroutines are covered at statement level.",
  "C08": "Trusted as C01; Sender/Router completions arbitrary. One known finding (router error stores the promise without its task).",
  "C11": "Trusted as C01; sequential (fault-free, interference-free) runs for the progress lemmas by definition of the lemma. One known finding (id collision blocks the time-out of a promise for ever).",
+ "C12": "Trusted as C01; category model_checking over sequential paths. Goroutine-level behaviour (Signal, Shutdown races, AIO backpressure with blocking channels) is not encoded: seeded changes of that kind are not detected.",
+ "C13": "Trusted as C01 plus the front-end stubs (protobuf structs as plain Go values, jwt fork, json contracts). HTTP handlers are not executed.",
+ "C15": "Trusted as C13; HTTP side not executed.",
+ "C19": "Trusted: json/url contracts as stated; recording plugins stand for the real transports.",
  "C14": "Trusted as C01 plus LIKE/tag-matching contracts; page sizes 1..3, 2-3 rows.",
  "C09": "Trusted as C01; bounds: 2 lock rows (3 thorough), ttl and clock < 2^62.",
  "C10": "Trusted as C01 plus the cron and template stubs. Two genuine defects found here (template.Must panic on a client template; nil dereference when a scheduled promise is routed) are reported under C13.",
